@@ -92,6 +92,8 @@ def gen_case(rng, idx, sdir):
             if rng.random() < 0.15:
                 p["dtype"], p["values"] = "2-tuple", [["1", "2"], ["x", ""]][:rng.choice([1, 2])]
             p["dependency"] = p["dependency_value"] = None
+            if prefix == "tp" and rng.random() < 0.15:
+                p["name"] += "\u00e9"          # a composed accented letter: a name with a look-alike (see "look-alike-names")
             if rng.random() < 0.1:
                 # a Property that was created without a name: its id serves as name
                 p["id"] = p["name"] = str(uuid.UUID(int=rng.getrandbits(128), version=4))
@@ -172,6 +174,13 @@ def gen_case(rng, idx, sdir):
         if mode == "other-names":
             own_p = props(rng.choice([1, 2]), "own")
             own_s = [S("ownsec", "t", props(1, "op"))] if rng.random() < 0.5 else []
+            import unicodedata
+            for tc in tmodel["properties"]:
+                nfd = unicodedata.normalize("NFD", tc["name"])
+                if nfd != tc["name"]:
+                    # an own child whose name differs from the target child's only in its Unicode form
+                    # (decomposed accent): another name, so both are there after resolving
+                    own_p.append(P(nfd, "string", ["own look-alike"]))
         elif mode == "same-names":
             if tmodel["properties"]:
                 own_p = [P(tmodel["properties"][0]["name"], "string", ["own value"])]
@@ -250,15 +259,13 @@ def run_case(case, ctx, sdir):
     exts = [dec(e) for e in case["ext"]] if case["ext"] else []
     with warnings.catch_warnings():
         warnings.simplefilter("ignore")
-        urls = []
+        urls, paths = [], []
         for k, ext in enumerate(exts):
-            extdoc = gen.build_doc(ext)
             # every resource has the same base name; only the directory differs
             d = os.path.join(sdir, "c12ext", "%s_%d_%d_%d" % (ctx.seed, case["i"], os.getpid(), k))
             os.makedirs(d, exist_ok=True)
-            path = os.path.join(d, "resource.xml")
-            odml.save(extdoc, path)
-            urls.append("file://" + path)
+            paths.append(os.path.join(d, "resource.xml"))
+            urls.append("file://" + paths[-1])
 
         def patch(s):
             if s.get("include"):
@@ -268,6 +275,20 @@ def run_case(case, ctx, sdir):
                 patch(c)
         for s in docspec["sections"]:
             patch(s)
+        early = None
+        if exts and case.get("i", 0) % 4 == 0 and not any(os.path.exists(p_) for p_ in paths):
+            # the resources are asked for once before they exist (a first attempt that has to fail and change nothing);
+            # they are written afterwards and everything below must work as if the attempt had not been made
+            rec.count("resource", "asked-for-before-it-existed")
+            # (what a failed finalize leaves behind is C06's subject, a known finding there; the attempt's document is dropped)
+            try:
+                early = gen.build_doc(docspec)
+                early.finalize()
+            except Exception:
+                pass
+            early = None
+        for ext, path in zip(exts, paths):
+            odml.save(gen.build_doc(ext), path)
         doc = gen.build_doc(docspec)
         from checks.c01_xml import no_ids
         links = case["links"]
